@@ -134,6 +134,43 @@ func runC20(c *h.Ctx) {
 			}
 		}
 	}
+	// host-name shaped origins: each registered alone, together with its look-alikes, and only its look-alikes
+	shapes := []string{"origin.example", "origin.example.", "Origin.Example", "ORIGIN.EXAMPLE", " origin.example", "origin.example ", "a..b", ".", "..",
+		"*.example", "origin.example:443", "https://origin.example/", "xn--bcher-kva.example", "origin.example,other.example", "www.origin.example", "origin.example.com"}
+	for si, sh := range shapes {
+		var others [][]byte
+		for sj, o := range shapes {
+			if sj != si {
+				others = append(others, []byte(o))
+			}
+		}
+		for ri, reg := range [][][]byte{{[]byte(sh)}, others, append(append([][]byte{}, others...), []byte(sh))} {
+			origins := map[string][]byte{}
+			for _, r := range reg {
+				origins[string(r)] = rnd(c, 48)
+			}
+			env := newT3(c, 0, rnd(c, 32), origins)
+			st, err := env.request(client, rnd(c, 12), rnd(c, 32), rnd(c, 48), sh)
+			if err != nil {
+				c.Violation("honest rate-limited request creation fails", map[string]any{"name": sh, "err": err.Error()})
+				continue
+			}
+			var everr error
+			pan, msg := h.Protect(func() { _, _, everr = env.issuer.Evaluate(st.Request().Marshal()) })
+			if pan {
+				c.Violation("issuer Evaluate panics on an honest request", map[string]any{"name": sh, "panic": msg})
+				continue
+			}
+			st2 := h.StNone
+			if everr == nil {
+				st2 = h.StOK
+			}
+			c.Case("lookup:host-name-shapes", true, "served", append([][]byte{[]byte(sh)}, reg...), [][]byte{st2})
+			if (everr == nil) != (ri != 1) {
+				c.Violation("a request is served exactly when its own origin name is registered (host-name shaped names and their look-alikes)", map[string]any{"name": sh, "registered_set": ri, "served": everr == nil})
+			}
+		}
+	}
 	// names needing the same number of blocks give equal wire lengths (implementation alone)
 	env := newT3(c, 0, rnd(c, 32), map[string][]byte{})
 	byBlocks := map[int]int{}
